@@ -69,7 +69,10 @@ def cases(draw, algos=ALGOS):
                             v["cost"] = None
                 desc["domains"][d] = list(new)
     return {"algo": algo, "params": params, "dcop": desc, "schedule": draw(gen.schedules(150)),
-            "seed": draw(st.integers(0, 10000))}
+            "seed": draw(st.integers(0, 10000)),
+            # a third of the runs pass every message through simple_repr -> json -> from_repr before delivery (what
+            # crosses a process boundary): what is selected must not depend on the transport
+            "wire": draw(st.integers(0, 2)) == 0}
 
 
 def case_strategy(tier):
@@ -113,11 +116,16 @@ def run_case(case):
 
             r = localsearch.run_algo(desc, algo, case["params"], case["schedule"], case["seed"],
                                      max_steps=6000, tick_budget=30 if algo == "adsa" else 0, before_run=prep,
-                                     stop_on_error=True)
+                                     stop_on_error=True, wire=bool(case.get("wire")))
         finally:
             VariableComputation.value_selection = orig
         net = r.net
         labels.append(net.schedule_label())
+        if case.get("wire"):
+            labels.append("wire")
+            if net.wire_failures:
+                return Outcome(False, "%s: message could not be encoded/decoded for the wire: %r" % (algo, net.wire_failures[0]),
+                               True, labels, info={"phase": "wire"})
         nvars = len(desc["variables"])
         nontrivial = nsel[0] >= nvars + 2
         info = {"selections": nsel[0], "steps": net.step}
